@@ -17,7 +17,7 @@ VARIANTS = [('cond2arithm', dict(settings=dict(cond2arithm=True))), ('categorica
 def items(tier, seed):
     base = [dict(name=n, src=s, vars=v) for n, s, v in gen.CURATED if n not in ('d18_uninit_under_guard',)]
     base += [dict(name=n, src=s, vars=v) for n, s, v in gen.family(8000 + seed, 8 if tier == 'quick' else 120)]
-    if tier == 'quick': base = [b for b in base if b['name'] in ('rw2', 'readme', 'fib', 'elif3', 'reassign_cond', 'guard_geo', 'nested', 'du', 'param', 'or_overlap', 'three_way_overlap', 'guard_two', 'swap', 'const_in_cond', 'alias_reuse_rhs') or b['name'].startswith('gen')]
+    if tier == 'quick': base = [b for b in base if b['name'] in ('rw2', 'readme', 'fib', 'elif3', 'reassign_cond', 'guard_geo', 'nested', 'du', 'param', 'or_overlap', 'three_way_overlap', 'guard_two', 'swap', 'const_in_cond', 'alias_reuse_rhs', 'real_roots_rational_largest') or b['name'].startswith('gen')]
     for it in base:
         it['nmax'] = 4 if tier == 'quick' else 6; it['budget'] = 60 if tier == 'quick' else 200; it['oracle_s'] = 8 if tier == 'quick' else 40
     return base
